@@ -8,7 +8,7 @@ namespace Rustbus.FdConc
 /-- the result the thread's current operation is going to report (if any) cannot be a descriptor,
     provided the cell holds -1 from now on -/
 def Pc.clean : Pc → Bool
-  | .idle | .takeLoad | .getLoad | .dupLoad | .dropDec => true
+  | .idle | .takeLoad | .getLoad | .dupLoad | .dupLoadF | .dropDec => true
   | .takeDec none => true
   | .takeDec (some _) => false
   | .innerDrop k | .dropLoad k | .dropCas k _ | .dropClose k _ => !k.seesFd
@@ -16,7 +16,7 @@ def Pc.clean : Pc → Bool
 
 /-- the operation has been invoked at most, none of its atomic steps on the cell has happened -/
 def Pc.beforeFirstStep : Pc → Bool
-  | .idle | .takeLoad | .getLoad | .dupLoad => true
+  | .idle | .takeLoad | .getLoad | .dupLoad | .dupLoadF => true
   | _ => false
 
 theorem clean_of_beforeFirstStep {pc : Pc} (h : pc.beforeFirstStep = true) : pc.clean = true := by
@@ -68,13 +68,13 @@ theorem stepThread_gone {sh sh' : Shared} {th th' : Thread} {acts : List Act}
     | (simp only [Option.some.injEq, Prod.mk.injEq] at h
        obtain ⟨rfl, rfl, rfl⟩ := h
        fdg_close)
-  | takeLoad | takeCas v | dupLoad | dropLoad k | dropCas k v =>
+  | takeLoad | takeCas v | dupLoad | dupLoadF | dropLoad k | dropCas k v =>
     simp only [stepThread] at h
     split at h <;>
     · simp only [Option.some.injEq, Prod.mk.injEq] at h
       obtain ⟨rfl, rfl, rfl⟩ := h
       fdg_close
-  | getLoad | dupSys v | dupClose n | innerDrop k | dropClose k v =>
+  | getLoad | dupSys v | dupClose n | dupSysF v | innerDrop k | dropClose k v =>
     simp only [stepThread, Option.some.injEq, Prod.mk.injEq] at h
     obtain ⟨rfl, rfl, rfl⟩ := h
     fdg_close
